@@ -78,6 +78,12 @@ Specials ==
     [seq |-> <<C("SADD", <<ka, x, y>>), C("SREM", <<ka, x, y>>), C("SRANDMEMBER", <<ka>>), C("SRANDMEMBER", <<ka, N(-2)>>), C("SPOP", <<ka>>)>>, known |-> "none"],
     [seq |-> <<C("SADD", <<ka, x>>), C("SPOP", <<ka>>), C("SRANDMEMBER", <<ka, N(-3)>>), C("SMOVE", <<ka, kb, x>>)>>, known |-> "none"],
     [seq |-> <<C("RPUSH", <<ka, x>>), C("LPOP", <<ka>>), C("LPOP", <<ka>>), C("RPOPLPUSH", <<ka, ka>>), C("LMPOP", <<N(1), ka, W("RIGHT")>>)>>, known |-> "none"],
+    \* DUMP / RESTORE round trips of every type ("@DUMP" = the payload the last DUMP returned), then the restored key is used
+    [seq |-> <<C("SET", <<ka, x>>), C("DUMP", <<ka>>), C("RESTORE", <<kb, N(0), W("@DUMP")>>), C("GET", <<kb>>), C("APPEND", <<kb, y>>), C("RESTORE", <<kb, N(0), W("@DUMP")>>), C("RESTORE", <<kb, N(0), W("@DUMP"), W("REPLACE")>>)>>, known |-> "none"],
+    [seq |-> <<C("RPUSH", <<ka, x, y>>), C("DUMP", <<ka>>), C("RESTORE", <<kb, N(0), W("@DUMP")>>), C("TYPE", <<kb>>), C("LLEN", <<kb>>), C("LRANGE", <<kb, N(0), N(-1)>>), C("RPUSH", <<kb, x>>), C("LPOP", <<kb>>)>>, known |-> "none"],
+    [seq |-> <<C("HSET", <<ka, f, x>>), C("DUMP", <<ka>>), C("RESTORE", <<kb, N(0), W("@DUMP")>>), C("TYPE", <<kb>>), C("HLEN", <<kb>>), C("HGETALL", <<kb>>), C("HSET", <<kb, x, y>>), C("HRANDFIELD", <<kb>>)>>, known |-> "none"],
+    [seq |-> <<C("SADD", <<ka, x, y>>), C("DUMP", <<ka>>), C("RESTORE", <<kb, N(0), W("@DUMP")>>), C("TYPE", <<kb>>), C("SCARD", <<kb>>), C("SMEMBERS", <<kb>>), C("SADD", <<kb, f>>), C("SPOP", <<kb>>), C("KEYS", <<W("*")>>), C("DBSIZE", <<>>)>>, known |-> "none"],
+    [seq |-> <<C("DUMP", <<ka>>), C("RESTORE", <<kb, N(0), W("@DUMP")>>), C("RESTORE", <<kb, N(0), x>>), C("RESTORE", <<kb, AMin, <<1, 8, 0, 0>>>>), C("EXISTS", <<kb>>)>>, known |-> "none"],
     [seq |-> <<C("RPUSH", <<ka, x, y>>), C("LMPOP", <<N(1), ka, W("LEFT"), W("COUNT"), AMax>>)>>, known |-> "D_LMPOP_HUGE_COUNT_PANICS"],
     [seq |-> <<C("SET", <<ka, x>>), C("SCAN", <<N(0), W("COUNT"), AMax>>)>>, known |-> "D_SCAN_HUGE_COUNT_PANICS"],
     [seq |-> <<C("HSET", <<ka, f, x>>), C("HSCAN", <<ka, N(0), W("COUNT"), AMax>>)>>, known |-> "D_SCAN_HUGE_COUNT_PANICS"],
